@@ -24,7 +24,10 @@ Leaves == <<
   [name |-> "list",     toks |-> <<"[", "1", ",", "2", "]">>],
   [name |-> "emptylist",toks |-> <<"[", "]">>],
   [name |-> "map",      toks |-> <<"{", "k", ":", "1", "}">>],
-  [name |-> "countstar",toks |-> <<"count", "(", "*", ")">> ]
+  [name |-> "countstar",toks |-> <<"count", "(", "*", ")">> ],
+  \* names that need backticks: a parameter, a property key
+  [name |-> "escparam", toks |-> <<"$`a b`">>],
+  [name |-> "escprop",  toks |-> <<"n", ".", "`odd key`">>]
 >>
 B == <<"n", ".", "a", "=", "1">>      \* default filling of a hole that wants a truth value
 V == <<"n", ".", "x">>                \* ... a value
@@ -51,6 +54,8 @@ Prods == <<
   [name |-> "lookupj", toks |-> <<H, ".", "j">>, defs |-> <<N>>],
   [name |-> "label", toks |-> <<H, ":", "K">>, defs |-> <<N>>],
   [name |-> "labels2", toks |-> <<H, ":", "K", ":", "K2">>, defs |-> <<N>>],
+  [name |-> "esclabel", toks |-> <<H, ":", "`Odd Kind`">>, defs |-> <<N>>],
+  [name |-> "esclookup", toks |-> <<H, ".", "`a.b`">>, defs |-> <<N>>],
   [name |-> "index", toks |-> <<H, "[", "0", "]">>, defs |-> <<L>>],
   [name |-> "indexby", toks |-> <<"n", ".", "list", "[", H, "]">>, defs |-> <<<<"0">>>>],
   [name |-> "slice", toks |-> <<H, "[", "0", "..", "1", "]">>, defs |-> <<L>>],
@@ -92,7 +97,15 @@ Depth1 == \A i \in DOMAIN Items : PrintT(ToJson([cls |-> "expr1", outer |-> Item
 Depth2 == \A pi \in DOMAIN Prods : \A h \in DOMAIN Prods[pi].defs : \A qi \in DOMAIN Items : \A paren \in BOOLEAN :
             PrintT(ToJson([cls |-> "expr2", outer |-> Prods[pi].name, hole |-> h, inner |-> Items[qi].name, paren |-> paren,
                            toks |-> WithInner(Prods[pi], h, Items[qi].toks, paren)]))
-ASSUME Depth1 /\ Depth2
+\* long chains: one binary operator applied ChainLen times to operands of unknown type (n.p1 op n.p2 op ...): what a
+\* translator's type inference and an emitter's precedence logic walk level by level
+ChainLen == 40
+RECURSIVE ChainToks(_, _)
+ChainToks(op, k) == IF k = 1 THEN <<"n", ".", "p1">> ELSE ChainToks(op, k - 1) \o op \o <<"n", ".", "p" \o ToString(k)>>
+ChainOps == {<<"+">>, <<"-">>, <<"*">>, <<"/">>, <<"%">>, <<"^">>, <<"and">>, <<"or">>, <<"xor">>, <<"=">>, <<"<">>, <<"in">>, <<"starts", "with">>, <<"contains">>}
+Chains == \A op \in ChainOps : \A k \in {12, ChainLen} :
+            PrintT(ToJson([cls |-> "chain", outer |-> op[1], hole |-> k, inner |-> "", paren |-> FALSE, toks |-> ChainToks(op, k)]))
+ASSUME Depth1 /\ Depth2 /\ Chains
 VARIABLE x
 Spec == x = 0 /\ [][x' = x]_x
 =============================================================================
